@@ -109,6 +109,7 @@ UnitOutcomes(s, env, u, mav) ==
       [] u.op = "opcq"  -> Ok(s, <<Num(1)>>)
       [] u.op = "rst"   -> Ok(s, <<>>)
       [] u.op = "wai"   -> Ok(s, <<>>)
+      [] u.op = "trg"   -> Ok(s, <<>>)                  \* *TRG: the device's trigger hook runs once (counted by the trace), no status change
       [] u.op = "sre"   -> Write(s, u, 8, [s EXCEPT !.sre = ToBits(u.v, 8)])
       [] u.op = "sreq"  -> Ok(s, <<Num(FromBits(s.sre))>>)
       [] u.op = "stbq"  -> UNION {Ok(s, <<Num(x)>>) : x \in StbAllowed(s, mav)}
